@@ -143,6 +143,10 @@ def demirrored(fn):
     return body
 
 
+def _is_partial(e):
+    return isinstance(e, ast.Call) and ((isinstance(e.func, ast.Name) and e.func.id == "partial") or (isinstance(e.func, ast.Attribute) and e.func.attr == "partial")) and bool(e.args) and not any(isinstance(a, ast.Starred) for a in e.args) and not any(k.arg is None for k in e.keywords)
+
+
 class Shaper:
     def __init__(self, program, cg, side):
         self.p = program
@@ -218,6 +222,14 @@ class Shaper:
             if len(out) == n0 and isinstance(s.value, ast.Call):
                 out.append(("call", txt))
             return
+        if isinstance(s, ast.Assign) and len(s.targets) == 1 and isinstance(s.targets[0], ast.Name) and _is_partial(s.value):
+            # `g = partial(f, a, ..)`: g is a callable standing for `f(a, .., <call arguments>)`; several such
+            # bindings of one name (one per arm) are alternatives, like nested defs
+            env.setdefault("<partials>", {})
+            env["<partials>"] = dict(env["<partials>"])
+            env["<partials>"].setdefault(s.targets[0].id, [])
+            env["<partials>"][s.targets[0].id] = env["<partials>"][s.targets[0].id] + [s.value]
+            return
         if isinstance(s, (ast.Assign, ast.AnnAssign)):
             if isinstance(s, ast.AnnAssign) and s.value is None:
                 return
@@ -260,10 +272,12 @@ class Shaper:
             body = self._body(f, s.body, e1)
             self._depth -= 1
             for k in e1:
-                if k in env and env[k] != e1[k]:
+                if k.startswith("<"):
+                    env[k] = e1[k]
+                elif k in env and env[k] != e1[k]:
                     env[k] = self._alpha(k)
                 elif k not in env:
-                    env[k] = self._alpha(k) if k != "<defs>" else e1[k]
+                    env[k] = self._alpha(k)
             if s.orelse:
                 body_else = self._body(f, s.orelse, env)
                 out.append(("forelse", ittext, body, body_else))
@@ -342,14 +356,14 @@ class Shaper:
         a_dead = bool(a) and a[-1][0] in ("raise", "ret")
         b_dead = bool(b) and b[-1][0] in ("raise", "ret")
         for k in set(e1) | set(e2):
-            if k == "<defs>":
+            if k.startswith("<"):
                 d = {}
                 for e in (e1, e2):
-                    for nm, lst in e.get("<defs>", {}).items():
+                    for nm, lst in e.get(k, {}).items():
                         for x in lst:
                             if x not in d.setdefault(nm, []):
                                 d[nm].append(x)
-                env["<defs>"] = d
+                env[k] = d
                 continue
             v1, v2 = e1.get(k), e2.get(k)
             if a_dead and not b_dead:
@@ -404,7 +418,7 @@ class Shaper:
         if isinstance(e, ast.Constant):
             return repr(e.value)
         if isinstance(e, ast.Name):
-            if e.id in env and e.id != "<defs>":
+            if e.id in env and not e.id.startswith("<"):
                 return env[e.id]
             r = self.p.resolve(f.mod, e.id)
             if r and r[0] == "value":
@@ -608,6 +622,21 @@ class Shaper:
             return t
         # --- nested defs / helpers taking the codec object --------------------
         args_txt = None
+        if isinstance(fn, ast.Name) and env.get("<partials>", {}).get(fn.id):
+            alts = []
+            ret = None
+            for pc in env["<partials>"][fn.id]:
+                sub = []
+                synth = ast.copy_location(ast.Call(func=pc.args[0], args=list(pc.args[1:]) + list(call.args), keywords=list(pc.keywords) + list(call.keywords)), call)
+                ast.fix_missing_locations(synth)
+                self.cg.by_node.setdefault(id(synth), self.cg.by_node.get(id(pc)))
+                ret = self._call(f, synth, env, sub)
+                alts.append(sub)
+            if all(_strip_reader(a_) == _strip_reader(alts[0]) for a_ in alts):
+                out.extend(alts[0])
+            else:
+                out.append(("alts", alts))
+            return ret or "?"
         if isinstance(fn, ast.Name):
             defs = env.get("<defs>", {}).get(fn.id)
             if defs:
@@ -696,7 +725,7 @@ class Shaper:
                 new.setdefault(k, v)
         # self.<attr> state carried by the caller env (codec object state)
         for k, v in env.items():
-            if k.startswith("self.") or k == "<defs>":
+            if k.startswith("self.") or k.startswith("<"):
                 new.setdefault(k, v)
         saved = self.in_codec
         if callee.cls is self.codec_cls or (callee.cls is not None and self.codec_cls in self.p.mro(callee.cls)):
